@@ -34,6 +34,7 @@ RULE = (
     'Non-trivial: program has >=2 interacting construct groups (splat + nested call, closure '
     '+ helper, variable reused in two places, control flow + partial ...).'
 )
+RULE += (' ' + 'Rounds 3-5: arg_factory.partial factories bound to variables used elsewhere; a user-defined exception class as configurable callable.')
 ASSUMPTIONS = [
     'programs whose plain Python run raises say nothing about the rewrite and are skipped',
     'exempted calls take only literal arguments (anything else is outside the supported subset)',
